@@ -127,6 +127,116 @@ func runC07(p *core.Prog, r *core.Report) {
 	c07R6(p, r)
 	// the same order in an import into a layout: the tag is written last (shared with C09.R10)
 	importOrderRule(p, r, "C07.R7")
+	c07R8(p, r)
+	// a manifest (and the tag written with it) is not published while a blob it shares with another
+	// image of the same copy is still in flight (shared with C03.R4)
+	c03R4(p, r, "C07.R9")
+}
+
+// ---------------------------------------------------------------------------------------------
+// R8 the index updater starts a new index when the old one cannot be read, so the reader must not
+// refuse an index that it has read and parsed
+
+func c07R8(p *core.Prog, r *core.Report) {
+	const rule = "C07.R8"
+	r.Rule(rule, "an index that parses is never discarded: while the index updater answers a failed read of index.json by writing a fresh index, the reader has no failing return after its JSON decode succeeded (a content check added there turns one foreign entry into the loss of every tag at the next write)", 1)
+	upd := p.Method(ocidirRel, "OCIDir", "updateIndex")
+	rd := p.Method(ocidirRel, "OCIDir", "readIndex")
+	wr := p.Method(ocidirRel, "OCIDir", "writeIndex")
+	if upd == nil || rd == nil || wr == nil {
+		r.MissingAnchor(rule, ocidirRel+" updateIndex / readIndex / writeIndex")
+		return
+	}
+	replaces := false
+	for _, c := range core.CallsTo(upd, func(f *types.Func) bool { return funcObjIs(p, f, rd) }) {
+		call, ok := c.(*ssa.Call)
+		if !ok {
+			continue
+		}
+		for _, e := range errEdgesOf(upd, call) {
+			for in := range (core.Reach{}).FromEdge(e[0], e[1]) {
+				if cc, ok := in.(ssa.CallInstruction); ok && core.CalleeFn(cc) == wr {
+					replaces = true
+				}
+			}
+		}
+	}
+	if !replaces {
+		r.Held(rule, p.FuncName(upd), "index read failure", p.Pos(upd.Pos()), "the updater does not write an index after a failed read: nothing is replaced")
+		return
+	}
+	// the decode step: a call of encoding/json, or of a small module helper that makes one
+	var decodes func(g *ssa.Function, depth int) bool
+	isJSON := func(f *types.Func) bool {
+		return f != nil && f.Pkg() != nil && f.Pkg().Path() == "encoding/json" && (f.Name() == "Unmarshal" || f.Name() == "Decode")
+	}
+	decodes = func(g *ssa.Function, depth int) bool {
+		if g == nil || depth < 0 || !p.InModule(g) {
+			return false
+		}
+		found := false
+		core.Calls(g, func(c ssa.CallInstruction) {
+			if isJSON(core.Callee(c)) || (depth > 0 && decodes(core.CalleeFn(c), depth-1)) {
+				found = true
+			}
+		})
+		return found
+	}
+	// a helper counts only when it handles the index itself (the layout check decodes the marker file)
+	idxT := rd.Signature.Results().At(0).Type()
+	carriesIndex := func(g *ssa.Function) bool {
+		is := func(t types.Type) bool {
+			if pt, ok := t.(*types.Pointer); ok {
+				t = pt.Elem()
+			}
+			return types.Identical(t, idxT)
+		}
+		for i := 0; i < g.Signature.Params().Len(); i++ {
+			if is(g.Signature.Params().At(i).Type()) {
+				return true
+			}
+		}
+		for i := 0; i < g.Signature.Results().Len(); i++ {
+			if is(g.Signature.Results().At(i).Type()) {
+				return true
+			}
+		}
+		return false
+	}
+	var dec []*ssa.Call
+	core.Calls(rd, func(c ssa.CallInstruction) {
+		call, ok := c.(*ssa.Call)
+		if !ok {
+			return
+		}
+		if isJSON(core.Callee(c)) || (decodes(core.CalleeFn(c), 1) && carriesIndex(core.CalleeFn(c))) {
+			dec = append(dec, call)
+		}
+	})
+	if len(dec) == 0 {
+		r.Undecided(rule, p.FuncName(rd), "decode of the index", p.Pos(rd.Pos()), "no JSON decode found in the index reader")
+		return
+	}
+	lab := labeler{}
+	for _, d := range dec {
+		errE := errEdgesOf(rd, d)
+		reach := core.Reach{StopEdge: func(from, to *ssa.BasicBlock) bool {
+			for _, e := range errE {
+				if e[0] == from && e[1] == to {
+					return true
+				}
+			}
+			return false
+		}}
+		ok, pos := true, d.Pos()
+		for in := range reach.FromInstr(d) {
+			if ret, isRet := in.(*ssa.Return); isRet && failureReturn(rd, ret) {
+				// the decode error itself, returned unwrapped behind its own test
+				ok, pos = false, ret.Pos()
+			}
+		}
+		r.Check(ok, rule, p.FuncName(rd), lab.next("no failure after the index was parsed"), p.Pos(pos), "a failing return is reachable after the decode succeeded: the updater takes that failure for 'no index yet' and replaces index.json with one that holds only the new entry")
+	}
 }
 
 // pathDepth counts the path elements of a path expression built with Join, + and Sprintf: one per
